@@ -20,21 +20,21 @@ Hypothesis eqA_spec : forall x y, eqA x y = true <-> x = y.
 Theorem c26_fifo_refinement :
   forall (n : nat) (ops : list (op A)),
     spec_check_all eqA {| cap := n; q := [] |} ops
-                   (run dflt (new_buffer dflt n) ops) = true.
+                   (run (new_buffer dflt n) ops) = true.
 Proof. exact (ring_fifo_refinement dflt eqA eqA_spec). Qed.
 
 (* The abstraction commutes: after any history the concrete state is
    well formed and represents the queue of the specification. *)
 Theorem c26_state_refines :
   forall (n : nat) (ops : list (op A)),
-    let b := run_state dflt (new_buffer dflt n) ops in
+    let b := run_state (new_buffer dflt n) ops in
     inv b /\ size b = n /\ length (abs b) = used b /\ used b <= n.
 Proof. exact (ring_state_refines dflt). Qed.
 
 (* The fuel in the transcribed loops is never exhausted. *)
 Theorem c26_no_out_of_fuel :
   forall (n : nat) (ops : list (op A)),
-    ~ In (ROutOfFuel A) (run dflt (new_buffer dflt n) ops).
+    ~ In (ROutOfFuel A) (run (new_buffer dflt n) ops).
 Proof. exact (ring_no_out_of_fuel dflt). Qed.
 
 (* Readable per-operation forms on an arbitrary well-formed buffer. *)
